@@ -279,6 +279,51 @@ def _rhs_sums_to_zero(g):
 
 
 # ---------------------------------------------------------------------------
+# R4s: aggregates are taken before a solution block is given its 3-D shape
+# ---------------------------------------------------------------------------
+def r4s(repo, rep, modules=("analytic",)):
+    rep.rule("R4s", "a block of the solution is summed over its rows (`.sum(axis=0)`, one value per time) BEFORE it is reshaped in "
+                    "place to (k, l, time): after `A.shape = (a, b, tcount)` the same call sums over the first index only and "
+                    "returns a 2-D array that is not a time series")
+    n = 0
+    for f in repo.all_funcs():
+        if f.module not in modules or f.parent is not None:
+            continue
+        shaped = {}
+        hits = []
+        for c in walk_function(f.node):
+            st = c.stmt
+            if isinstance(st, ast.Assign) and len(st.targets) == 1 and isinstance(st.targets[0], ast.Attribute) \
+                    and st.targets[0].attr == "shape" and isinstance(st.targets[0].value, ast.Name) \
+                    and isinstance(st.value, ast.Tuple) and len(st.value.elts) >= 3:
+                shaped[st.targets[0].value.id] = st
+                n += 1
+                continue
+            if isinstance(st, (ast.Assign, ast.Return, ast.Expr, ast.AugAssign)):
+                for z in ast.walk(st):
+                    if isinstance(z, ast.Call) and isinstance(z.func, ast.Attribute) and z.func.attr == "sum" \
+                            and isinstance(z.func.value, ast.Name) and z.func.value.id in shaped \
+                            and any(k.arg == "axis" and _k(k.value) == "0" for k in z.keywords):
+                        # only when the reshape precedes on this path (same or enclosing block, earlier statement)
+                        sh = shaped[z.func.value.id]
+                        if sh.lineno < st.lineno:
+                            hits.append((z, sh, st))
+                if isinstance(st, ast.Assign):
+                    for t in st.targets:
+                        if isinstance(t, ast.Name):
+                            shaped.pop(t.id, None)
+        if shaped or hits:
+            rep.analysed(f)
+        for nm, sh in shaped.items():
+            bad = [h for h in hits if h[1] is sh]
+            rep.ob("R4s", not bad, "%s: `%s` is aggregated before it is reshaped to three dimensions" % (f.name, nm), func=f,
+                   node=bad[0][2] if bad else sh, construct="%s: %s" % (f.name, short(sh)),
+                   detail="" if not bad else "`%s` is evaluated after `%s`: it now sums over the first of three axes and returns a "
+                   "2-D array instead of one value per time" % (short(bad[0][0]), short(sh)))
+    rep.floor("R4s", "in-place 3-D reshapes of solution blocks", n, 8)
+
+
+# ---------------------------------------------------------------------------
 # case enumeration for the edge tally of _count_edge_types_
 # ---------------------------------------------------------------------------
 class _NoCase(Exception):
